@@ -347,6 +347,12 @@ func (c *Ctx) execTypeAssert(fr *Frame, st *State, x *ssa.TypeAssert) {
 		res = &Val{T: x.AssertedType, Term: v.Term}
 	} else {
 		res = c.unbox(st, app("ival", v.Term), x.AssertedType)
+		if res.Term != "" {
+			switch x.AssertedType.Underlying().(type) {
+			case *types.Pointer, *types.Map:
+				c.assumeAlways(implies(ok, app("<", res.Term, c.next(st))))
+			}
+		}
 		if c.prog.NonNilDyn[typeName(x.AssertedType)] && res.Term != "" {
 			c.assumed["typed nil "+typeName(x.AssertedType)+" never occurs inside an interface value (its own methods would panic)"] = true
 			c.assumeAlways(implies(ok, not(eq(res.Term, "0"))))
